@@ -84,3 +84,48 @@ def random_call_context(rng):
         kw["phase"] = "<some>"
     pre = [rng.choice(["solve", "solve_phase", "rail_rep", "params", "solve_loose"]) for _ in range(rng.choice([0, 0, 1, 2]))]
     return {"kw": kw, "pre": pre, "phase_pick": rng.randrange(8)}
+
+
+def repo_tests_under_monitor(ctx, accept):
+    """Extra workload: the repository's own 91 tests, every solve() table judged by the row monitor with the
+    structure taken from the live graph (slmon/pytest_rows.py).  Runs once per check run (shard 0)."""
+    import json
+    import os
+    import subprocess
+    import sys
+    import tempfile
+
+    from .. import core, loader
+
+    tests = os.path.join(loader.REPO, "tests")
+    if ctx.shard != 0 or not os.path.isdir(tests):
+        ctx.count("repo_tests", "not run (no tests directory next to the sources)" if ctx.shard == 0 else "other shard")
+        return
+    fd, out = tempfile.mkstemp(prefix="slmon-pyrows-", suffix=".json")
+    os.close(fd)
+    env = dict(os.environ, SLMON_PYTEST_OUT=out, PYTHONPATH=core.VERIF + os.pathsep + loader.SRC, VERIF_REACH="0")
+    try:
+        p = subprocess.run([sys.executable, "-m", "pytest", "-q", "-p", "no:cacheprovider", "-p", "slmon.pytest_rows",
+                            "--timeout=900", "--benchmark-disable", "tests"], cwd=loader.REPO, env=env,
+                           capture_output=True, text=True, timeout=1800)
+        with open(out) as f:
+            res = json.load(f)
+    except Exception as e:  # noqa: BLE001
+        ctx.inconc("repository tests under the monitor could not be run: %r" % (e,))
+        return
+    finally:
+        if os.path.exists(out):
+            os.unlink(out)
+    ctx.count("repo_tests", "tables judged", res.get("tables", 0))
+    ctx.count("repo_tests", "pytest exit status %s" % res.get("exitstatus"))
+    for e in res.get("errors", []):
+        ctx.inconc("monitor error inside repository test: " + e)
+    if not res.get("tables"):
+        ctx.inconc("watchdog: the repository's tests ran under the monitor but no solve() table was observed")
+    for cl, n in res.get("clauses", {}).items():
+        if any(cl.startswith(a) for a in accept):
+            ctx.ev(cl, n)
+            ctx.ev("repo_tests.rows_judged", n)
+    for v in res.get("violations", []):
+        if any(v["clause"].startswith(a) for a in accept):
+            ctx.violate(v["clause"], v["detail"], v["case"])
